@@ -385,6 +385,35 @@ def platform_independence(chk, prog):
                                 return False
                             if uses and all(masked(u) for u in uses):
                                 continue
+                            # ... or when the converted value itself cannot exceed 31 bits: x >> k with k >= 33, x & const
+                            dfn = next((u for b2 in f["blocks"] for u in b2["instrs"] if u.get("name") == xo.get("n")), None)
+
+                            def opsmall(o, depth):
+                                if not isinstance(o, dict):
+                                    return False
+                                if o.get("k") == "const":
+                                    try:
+                                        return 0 <= int(o.get("v")) < (1 << 31)
+                                    except (TypeError, ValueError):
+                                        return False
+                                d_ = next((u for b2 in f["blocks"] for u in b2["instrs"] if u.get("name") == o.get("n")), None)
+                                return depth > 0 and small(d_, depth - 1)
+
+                            def small(u, depth=3):
+                                if not u or u["op"] != "BinOp":
+                                    return False
+                                try:
+                                    if u.get("binop") in ("^", "|") and opsmall(u.get("x"), depth) and opsmall(u.get("y"), depth):
+                                        return True
+                                    if u.get("binop") == ">>" and isinstance(u.get("y"), dict) and u["y"].get("k") == "const":
+                                        return int(u["y"]["v"]) >= 33
+                                    if u.get("binop") == "&":
+                                        return any(isinstance(u.get(k_), dict) and u[k_].get("k") == "const" and 0 <= int(u[k_]["v"]) < (1 << 31) for k_ in ("x", "y"))
+                                except (TypeError, ValueError, KeyError):
+                                    return False
+                                return False
+                            if small(dfn):
+                                continue
                             narrow.append("%s: %s -> %s at %s" % (n.split(".")[-1], ft.u.name, tt.u.name, ins.get("pos", "")))
                     except Exception:
                         continue
